@@ -1372,9 +1372,12 @@ func getHashCode(n NodeNavigator) uint64 {
 	var sb bytes.Buffer
 	switch n.NodeType() {
 	case AttributeNode, TextNode, CommentNode:
-		sb.WriteString(n.LocalName())
-		sb.WriteByte('=')
-		sb.WriteString(n.Value())
+		// The name=value part is written with its length in front, so that a
+		// value ending in "-<digits>" cannot be taken for part of the path.
+		s := n.LocalName() + "=" + n.Value()
+		sb.WriteString(strconv.Itoa(len(s)))
+		sb.WriteByte(':')
+		sb.WriteString(s)
 		// https://github.com/antchfx/htmlquery/issues/25
 		d := 1
 		for n.MoveToPrevious() {
@@ -1391,7 +1394,11 @@ func getHashCode(n NodeNavigator) uint64 {
 			sb.WriteString(strconv.Itoa(d))
 		}
 	case ElementNode:
-		sb.WriteString(n.Prefix() + n.LocalName())
+		// Length-prefixed for the same reason: element names such as "a-1".
+		s := n.Prefix() + n.LocalName()
+		sb.WriteString(strconv.Itoa(len(s)))
+		sb.WriteByte(':')
+		sb.WriteString(s)
 		d := 1
 		for n.MoveToPrevious() {
 			d++
